@@ -1,5 +1,6 @@
 import PercevalModel.Proto
 import PercevalModel.Model.C07
+import PercevalModel.Model.C07SV
 
 open Lean PM PM.Proto PM.Fock PM.C07
 
@@ -41,6 +42,65 @@ def matVRows {n : ℕ} (v : MatV GQ n n) : Array (Array GQ) :=
 
 def matVJson {n : ℕ} (v : MatV GQ n n) : Json := rowsToJson (matVRows v)
 
+
+/-! ### formal amplitudes `a · √q` on the wire: `[key, [re, im], q]` -/
+
+def svecJson (v : SVec) : Json :=
+  Json.arr ((v.filter fun e => e.2.1 != 0 && e.2.2 != 0).map fun e =>
+    Json.arr #[toJson e.1, gqToJson e.2.1, ratToJson e.2.2]).toArray
+
+def svecOfJson (j : Json) : Except String SVec := do
+  (← j.getArr?).toList.mapM fun e => do
+    match e with
+    | .arr #[s, a, q] =>
+      let q ← ratOfJson q
+      if q < 0 then throw "negative radicand"
+      return (← natList s, ← gqOfJson a, q)
+    | _ => throw "bad state-vector entry"
+
+def dmatJson (v : DMat) : Json :=
+  Json.arr ((v.filter fun e => e.2.1 != 0 && e.2.2 != 0).map fun e =>
+    Json.arr #[Json.arr #[toJson e.1.1, toJson e.1.2], gqToJson e.2.1, ratToJson e.2.2]).toArray
+
+def dmatOfJson (j : Json) : Except String DMat := do
+  (← j.getArr?).toList.mapM fun e => do
+    match e with
+    | .arr #[.arr #[t, u], a, q] =>
+      let q ← ratOfJson q
+      if q < 0 then throw "negative radicand"
+      return ((← natList t, ← natList u), ← gqOfJson a, q)
+    | _ => throw "bad density-matrix entry"
+
+
+def superOfJson (sv : Json) : Except String (List (List ℕ × GQ)) := do
+  (← sv.getArr?).toList.mapM fun (e : Json) => do
+    match e with
+    | .arr #[s, a] => return (← natList s, ← gqOfJson a)
+    | _ => throw "bad superposition entry"
+
+def srcOfJson (j : Json) : Except String (List (ℚ × List ℕ)) := do
+  (← j.getArr?).toList.mapM fun (e : Json) => do
+    match e with
+    | .arr #[w, s] => return (← ratOfJson w, ← natList s)
+    | _ => throw "bad source entry"
+
+def csOfJson (j : Json) : Except String (Option (ℚ × ℚ)) := do
+  match j.getObjVal? "cs" with
+  | .ok (Json.arr #[c, s]) => return some (← ratOfJson c, ← ratOfJson s)
+  | .ok _ => throw "bad cs"
+  | .error _ => return none
+
+/-- the program part shared by `probs`, `evolve`, `probsmix`: components, mode count, admissibility -/
+def programOfJson (j : Json) : Except String (Items GQ × ℕ × ℕ) := do
+  let comps ← (← arrOf j "comps").toList.mapM compOfJson
+  let mOpt : Option ℕ := match j.getObjVal? "m" with
+    | .ok (.num n) => if n.exponent = 0 ∧ 0 ≤ n.mantissa then some n.mantissa.toNat else none
+    | _ => none
+  if comps.isEmpty then throw "empty"
+  let M := origM mOpt comps
+  if M < retrieveModeCount comps then throw "AssertionError"
+  return (comps, M, expandedM M comps)
+
 def handle (j : Json) : Json :=
   match (do
     let op ← strOf j "op"
@@ -74,6 +134,54 @@ def handle (j : Json) : Json :=
       let d ← distOfJson (← j.getObjVal? "diag")
       if d.any (fun q => q.1.length ≤ mode) then throw "IndexError"
       return Json.mkObj [("diag", distJson (marginal (dmLossDiag mode p d)))]
+    | "evolve" =>
+      -- `LossSimulator.evolve`: contributions on the truncated states, before the container's normalisation
+      let (comps, M, N) ← programOfJson j
+      let U := (prodV N (rewrite M comps)).toMatrix
+      let inputs : List (List (List ℕ × GQ)) ← (← arrOf j "inputs").toList.mapM superOfJson
+      if inputs.any (fun sv => sv.isEmpty || sv.any (·.1.length ≠ M)) then throw "input size"
+      return Json.mkObj [("M", toJson M), ("N", toJson N),
+        ("svs", Json.arr (inputs.map fun sv => svecJson (lossEvolve U M sv)).toArray),
+        -- the distribution path on the same Fock components (for `evolve_incoherent_eq_probs` on the wire)
+        ("sq", Json.arr (inputs.map fun (sv : List (List ℕ × GQ)) =>
+          Json.arr (sv.map fun (p : List ℕ × GQ) => toJson (decide (sqDist (lossEvolve U M [(p.1, 1)]) = lossProbs U M p.1))).toArray).toArray)]
+    | "lcapply" =>
+      let r ← natOf j "r"
+      let p ← ratOfJson (← j.getObjVal? "p")
+      let v ← svecOfJson (← j.getObjVal? "sv")
+      if p < 0 ∨ 1 < p then throw "ValueError"
+      match v with
+      | [] => throw "empty"
+      | e :: _ =>
+        if v.any (·.1.length ≠ e.1.length) then throw "input size"
+        if e.1.length ≤ r then throw "IndexError"
+        let out := lcApply r p v
+        return Json.mkObj [("sv", svecJson out),
+          ("marg", toJson (decide (sqDist (postprocessSV e.1.length out) = dmLossDiag r p (sqDist v))))]
+    | "dmfull" =>
+      let mode ← natOf j "mode"
+      let p ← ratOfJson (← j.getObjVal? "p")
+      let ρ ← dmatOfJson (← j.getObjVal? "rho")
+      if ρ.any (fun e => e.1.1.length ≤ mode || e.1.2.length ≤ mode) then throw "IndexError"
+      let base := [("rho", dmatJson (krausApply mode p ρ))]
+      match ← csOfJson j with
+      | some (c, s) =>
+        if c < 0 ∨ s < 0 ∨ c * c ≠ 1 - p ∨ s * s ≠ p then throw "bad amplitudes"
+        return Json.mkObj (base ++ [("dil", dmatJson (dilateTrace mode c s ρ))])
+      | none => return Json.mkObj base
+    | "probsmix" =>
+      let (comps, M, N) ← programOfJson j
+      let U := (prodV N (rewrite M comps)).toMatrix
+      let src ← srcOfJson (← j.getObjVal? "src")
+      if src.any (·.2.length ≠ M) then throw "input size"
+      return Json.mkObj [("M", toJson M), ("N", toJson N),
+        ("dist", distJson (marginal (lossProbsMix U M src))),
+        ("weights", ratToJson (src.map fun (q : ℚ × List ℕ) => q.1).sum)]
+    | "source" =>
+      let e ← ratOfJson (← j.getObjVal? "e")
+      let s ← natList (← j.getObjVal? "s")
+      return Json.mkObj [("src", Json.arr ((sourceDist e s).map fun (q : ℚ × List ℕ) =>
+        Json.arr #[ratToJson q.1, toJson q.2]).toArray)]
     | "layers" =>
       let k : Kinds := ⟨← boolOf j "lc", ← boolOf j "td", ← boolOf j "polar", ← boolOf j "ff"⟩
       return Json.mkObj [("layers", toJson (layers k))]
